@@ -93,6 +93,9 @@ typedef struct console {
 
 	const console_cmd_t *cmd;
 	pt_t pt;
+
+	/*! Progress of console_eval() through the string being injected. */
+	uint16_t eval_index;
 } console_t;
 
 /*!
